@@ -385,6 +385,23 @@ theorem staleHit_cached {w : World} {m : SeqMon} (h : SeqInv w m) {k : Bytes} {p
     exact h.curPage pg hmem (h.fresh hfr pg hmem)
   · rfl
 
+/-- What the observer learns from a page served from the cache keeps the invariant: after a list_changed that followed the
+last change every cached page is current, so the first page that names one of its tools is. -/
+theorem seqInv_learnHit {w : World} {m : SeqMon} (h : SeqInv w m) {k : Bytes} {pg : Page}
+    (hf : w.cache.find? (fun pg => pg.key == k) = some pg) (hit : Bool) : SeqInv w (learnHit m k hit pg.tools) := by
+  unfold learnHit
+  split
+  · rename_i hcnd
+    simp only [Bool.and_eq_true] at hcnd
+    obtain ⟨⟨⟨_, hfr⟩, _⟩, _⟩ := hcnd
+    have hmem := List.mem_of_find?_eq_some hf
+    refine { h with listed := ?_ }
+    intro n hn
+    rcases List.mem_append.mp hn with h1 | h1
+    · exact firstCur_of_all_cur (h.fresh hfr) ⟨pg, hmem, toolDef_isSome_of_name h1⟩
+    · exact h.listed n h1
+  · exact h
+
 /-- The invariant is preserved by every step, whatever the clock. -/
 theorem seqInv_step (c : B64) {w : World} {m : SeqMon} (h : SeqInv w m) (now : Nat) (op : SeqOp) :
     SeqInv (stepW c w now op).1 (seqMonStep c m op (stepW c w now op).2).1 := by
@@ -420,15 +437,16 @@ theorem seqInv_step (c : B64) {w : World} {m : SeqMon} (h : SeqInv w m) (now : N
     cases hp : w.newProto with
     | false =>
       have hmp : m.newProto = false := by rw [h.proto, hp]
-      simp only [stepW, hp, Bool.not_false, if_true, seqMonStep, hmp, Bool.false_and, Bool.false_eq_true, if_false]
+      simp only [stepW, hp, Bool.not_false, if_true, seqMonStep, hmp, Bool.false_and, Bool.false_eq_true, if_false, learnHit]
       exact h
     | true =>
       have hmp : m.newProto = true := by rw [h.proto, hp]
       simp only [stepW, hp, Bool.not_true, Bool.false_eq_true, if_false]
       split
       · split
-        · simp only [seqMonStep, hmp, Bool.not_true, Bool.and_false, Bool.false_eq_true, if_false]
-          exact h
+        · rename_i pg hf _
+          simp only [seqMonStep, hmp, Bool.not_true, Bool.and_false, Bool.false_eq_true, if_false]
+          exact seqInv_learnHit h hf true
         · exact seqInv_put h hp now k
       · exact seqInv_put h hp now k
   | listSend k =>
@@ -449,8 +467,10 @@ theorem seqInv_step (c : B64) {w : World} {m : SeqMon} (h : SeqInv w m) (now : N
       split
       · exact hsent hw
       · split
-        · split
-          · exact h
+        · rename_i pg hf
+          split
+          · simp only [seqMonStep]
+            exact seqInv_learnHit h hf true
           · exact hsent hw
         · exact hsent hw
   | listRecv =>
@@ -573,6 +593,49 @@ theorem legacy_call_accepted (c : B64) (w : World) (hp : w.newProto = false) {n 
   unfold callModel callWith
   simp [hp, hs]
 
+/-- **list_changed beats the cache, in-flight responses included.**  For EVERY list of operations with arbitrary clocks —
+listings in flight (`listSend` … `listRecv`) overtaken by changes of the server's tools, by notifications and by other
+listings, any `ttlMs` —: once the client has handled a list_changed after the server's table last changed (`fresh`), every
+page in its cache is the server's current answer for that cursor.  (`putIfCurrent`: a result requested under an older
+cache generation is not stored; seeded change C12-m13 breaks exactly this.) -/
+theorem cache_current_after_list_changed (c : B64) (cfg : SeqCfg) (ops : List (Nat × SeqOp))
+    (hf : (runSeq c (World.init cfg) (SeqMon.init cfg) ops).2.1.fresh = true) :
+    ∀ pg ∈ (runSeq c (World.init cfg) (SeqMon.init cfg) ops).1.cache,
+      pg.tools = (serverPage (runSeq c (World.init cfg) (SeqMon.init cfg) ops).1.server
+        (runSeq c (World.init cfg) (SeqMon.init cfg) ops).1.pageSize pg.key).1 := by
+  have hinv := runSeq_inv c ops (seqInv_init cfg)
+  intro pg hpg
+  exact hinv.curPage pg hpg (hinv.fresh hf pg hpg)
+
+/-- … hence the next `ListTools`, at any clock and for any cursor, served from the cache or not, returns the tools of the
+server's current page. -/
+theorem list_current_after_list_changed (c : B64) (cfg : SeqCfg) (ops : List (Nat × SeqOp)) (now : Nat) (k : Bytes)
+    (hf : (runSeq c (World.init cfg) (SeqMon.init cfg) ops).2.1.fresh = true) :
+    ∃ hit next, (stepW c (runSeq c (World.init cfg) (SeqMon.init cfg) ops).1 now (.list k)).2 =
+      .listed hit (serverPage (runSeq c (World.init cfg) (SeqMon.init cfg) ops).1.server
+        (runSeq c (World.init cfg) (SeqMon.init cfg) ops).1.pageSize k).1 next := by
+  have hcur := cache_current_after_list_changed c cfg ops hf
+  generalize (runSeq c (World.init cfg) (SeqMon.init cfg) ops).1 = w at hcur ⊢
+  simp only [stepW]
+  split
+  · exact ⟨false, _, rfl⟩
+  · split
+    · rename_i pg hfind
+      split
+      · have hk : pg.key = k := by simpa using List.find?_some hfind
+        refine ⟨true, pg.next, ?_⟩
+        rw [hcur pg (List.mem_of_find?_eq_some hfind), hk]
+      · exact ⟨false, _, rfl⟩
+    · exact ⟨false, _, rfl⟩
+
+/-- A response that arrives after the client handled a list_changed that followed its request is not stored: the cache is
+what it was (empty, if nothing else was listed since). -/
+theorem overtaken_response_dropped (w : World) (now : Nat) (p : Pending) (hg : p.gen ≠ w.gen) :
+    (recvList w now p).1.cache = w.cache := by
+  unfold recvList
+  have : (p.gen == w.gen) = false := by simp [hg]
+  simp [this]
+
 /-! ## the boundary: witnesses -/
 
 section witnesses
@@ -605,6 +668,18 @@ theorem overtaken_listing_not_cached : (finalW wCfg opsOvertaken).cache = [] ∧
     (finalW wCfg (opsOvertaken ++ [(14, .list [])])).cache.map (·.tools) = [[(wA, wProps)]] ∧
     wA ∈ (finalM wCfg (opsOvertaken ++ [(14, .list [])])).listed ∧
     callModel idCodec (finalW wCfg (opsOvertaken ++ [(14, .list [])])) wA wArgs = (wHdrs, .okSame) := by decide
+
+/-- Why the generation must move on even when the cache is EMPTY (seeded change C12-m13 makes `invalidate` a no-op then):
+take the session before the notification, leave the world as it is (nothing cached, same generation), let the response
+arrive and list again — the overtaken page is served from the cache, `lookupTool` answers with the un-annotated
+definition and the server refuses the call although the client handled list_changed and listed the tool afterwards. -/
+theorem lazy_invalidation_disagrees :
+    let w0 := finalW wCfg (opsOvertaken.take 4)
+    let w2 := (stepW idCodec w0 13 .listRecv).1
+    w0.cache = [] ∧ w2.cache.map (·.tools) = [[(wA, wPlain)]] ∧
+    (stepW idCodec w2 14 (.list [])).1.cache.map (·.tools) = [[(wA, wPlain)]] ∧
+    toolDef w2.server wA = some wProps ∧
+    callModel idCodec (stepW idCodec w2 14 (.list [])).1 wA wArgs = ([], .notOk (some (-32020)) true) := by decide
 
 /-- Not claimed either way (an observation): WITHOUT a list_changed in between, a response that was overtaken by a change of
 the table and by a later listing is stored when it arrives — as the most recent page.  The tool the client had just listed
